@@ -7,6 +7,7 @@ import itertools, json
 from ..vlib import leanlib, cbuild, judge
 from ..gen import g_dec
 from . import _cred_common as cc
+from . import _conf_check
 
 LEVEL = "proof"
 U32 = 2 ** 32
@@ -112,6 +113,8 @@ def run(ctx):
     drv = leanlib.driver(ctx)
     hreal = cc.build_real(ctx)
     htoy = cc.build_toy(ctx)
+    # "for all --max-ttl in 1..3600": the option reaches conf->max_ttl unchanged (real conf.c), every value of the range
+    _conf_check.run(ctx, "time window / TTL bounds", {"max_ttl", "def_ttl", "skew"})
     if not drv or not hreal or not htoy:
         return
     ops = lattice(ctx.rng, ctx.tier == "thorough")
@@ -153,7 +156,7 @@ def end_to_end(ctx, htoy, drv):
                     if 0 <= t1 < U32:
                         ops.append("cred replay-reset")
                         expect.append(None)
-                        ops.append("cred req %s now=%d peer=1:1 maxttl=%d skew=%d" % (cc.hx(cc.dec_req(rsp.data)), t1, mx, sk))
+                        ops.append("cred req %s now=%d peer=1:1 maxttl=%d skew=%d" % (cc.hx(cc.dec_req(rsp.data, retry=r.choice([0, 0, 1, 5]))), t1, mx, sk))
                         expect.append((ettl, t0, t1, mx, sk, data))
     ctx.dist("e2e_decodes", len([e for e in expect if e]))
 
